@@ -321,6 +321,11 @@ func (s *JointFeldmanState) ForceDisqualify(participant int) error {
 	if !s.jointRunning {
 		return dkgInvalidStateTransitionErrorf("dkg is not running")
 	}
+	if participant >= s.size || participant < 0 {
+		return invalidInputsErrorf(
+			"invalid origin input, should be less than %d, got %d",
+			s.size, participant)
+	}
 	// disqualify the participant in the fvss instance where they are a dealer
 	err := s.fvss[participant].ForceDisqualify(participant)
 	if err != nil {
